@@ -14,23 +14,28 @@ const mergeDirName = "-merge"
 
 // Merge 立即执行 Merge 过程
 func (db *DB) Merge() error {
+	// 方法仅部分逻辑需加锁, 不应 defer
+	// 前置校验读取的活跃文件, merge 状态与统计值均可能被并发修改, 需在持有锁时进行
+	db.mu.Lock()
+
 	// 校验数据是否为空
 	if db.activeFile == nil {
+		db.mu.Unlock()
 		return nil
 	}
 
 	// 校验是否满足 merge 条件
 	if err := db.mergeCheck(); err != nil {
+		db.mu.Unlock()
 		return err
 	}
-
-	// 方法仅部分逻辑需加锁, 不应 defer
-	db.mu.Lock()
 
 	// 更新 merge 状态
 	db.isMerging = true
 	defer func() {
+		db.mu.Lock()
 		db.isMerging = false
+		db.mu.Unlock()
 	}()
 
 	// 当前活跃文件同样加入参与 merge 的集合
